@@ -252,6 +252,12 @@ def analyse(f):
     cont = [p for p in paths if p[0] == 'continue']
     brk = [p for p in paths if p[0] == 'break']
     exh = [p for p in paths if p[0] == 'exhausted']
+    if len(brk) == 0 and len(cont) == 2 and len(exh) == 1:
+        # no early exit: one way round the loop advances the scan state, the other leaves it as it is and goes on to the
+        # next weight — later (smaller) weights are then still subtracted / counted after the first one that did not fit
+        idle = [p for p in cont if all(p[2].get(l) == {('x', l): 1.0} for l in tracked)]
+        if len(idle) == 1:
+            return 'violated', 'the scan has no exit at the first weight that does not fit: it goes on and may still count later, smaller weights @ %s' % f.where(header)
     if len(cont) != 1 or len(exh) != 1 or len(brk) != 1:
         raise Unrecognised('%d continue / %d break / %d exhaustion paths (expected 1/1/1)' % (len(cont), len(brk), len(exh)))
     # initial values (definitions outside the loop, dominating the header)
